@@ -100,7 +100,9 @@ func genC19(t *rapid.T) bson.D {
 		}
 		colls = append(colls, bson.D{{Key: "ns", Value: fmt.Sprintf("d1.c%d", ci)}, {Key: "ttl", Value: idx}, {Key: "extra", Value: extra}, {Key: "docs", Value: docs}})
 	}
-	return bson.D{{Key: "colls", Value: colls}}
+	// some cases run on the single-file store and reload it before the pass:
+	// the TTL definitions the pass works from are then the persisted ones
+	return bson.D{{Key: "colls", Value: colls}, {Key: "reopen", Value: rapid.IntRange(0, 999).Draw(t, "reopen")%10 == 5}}
 }
 
 func resolveRel(v interface{}, now time.Time) interface{} {
@@ -164,7 +166,11 @@ func runC19(c bson.D, x *Ctx) (err error) {
 			err = fmt.Errorf("panic: %v", p)
 		}
 	}()
-	env, e := openMem()
+	open := openMem
+	if asB(getD(c, "reopen")) {
+		open = openFile
+	}
+	env, e := open()
 	if e != nil {
 		return fmt.Errorf("harness: %v", e)
 	}
@@ -249,6 +255,12 @@ func runC19(c bson.D, x *Ctx) (err error) {
 			}
 		}
 		exps = append(exps, ex)
+	}
+	if asB(getD(c, "reopen")) {
+		if e := env.reopen(); e != nil {
+			return fmt.Errorf("closing and reopening the database failed: %v", e)
+		}
+		x.Class("reloaded-before-pass")
 	}
 	// snapshot before the pass
 	catB := env.engine.Catalog()
